@@ -112,6 +112,7 @@ type Expr struct {
 	M       *Metric
 	Keys    []*Expr
 	Paren   bool // written with redundant parentheses
+	Typed   int  // cmp: +1 typed / -1 generic comparison selected by the real compiler (0 = derive)
 }
 
 // Stmt is a statement.  Op selects the form:
@@ -310,6 +311,11 @@ func condSrc(e *Expr) string {
 		op := " && "
 		if e.Op == "or" {
 			op = " || "
+		}
+		if e.A.Pat.P.Parts[0].Const != "" {
+			// a condition that starts with a const name is an ordinary logical
+			// expression (left-associative): the right operand keeps its parentheses
+			return e.A.src0() + op + e.B.src(2)
 		}
 		return e.A.src0() + op + e.B.src(1)
 	}
